@@ -486,8 +486,8 @@ pub fn run(a: &Args) -> i32 {
     let mut run = Run::new("C08", a.tier, a.seed, "exploration");
     crate::scenarios::run_for(&mut run, "C08");
     let stores = a.tier.pick(32, 64);
-    let programs_per_store = a.tier.pick(6_000, 60_000);
-    let maxlen = a.tier.pick(40, 200);
+    let programs_per_store = a.tier.pick(6_000, 14_000);
+    let maxlen = a.tier.pick(40, 120);
     let exhaustive_len = a.tier.pick(4, 5);
     let stats = Mutex::new(Stats {
         programs: 0,
@@ -515,6 +515,9 @@ pub fn run(a: &Args) -> i32 {
         cfg.vlog = cfg.versioning || si % 3 == 0;
         cfg.vlog_threshold = if cfg.versioning { 0 } else { 16 };
         cfg.max_memtable_size = 1 << 20;
+        // with versioning every version of the few keys is kept, so reads get slower with
+        // every commit (quadratic overall): versioned stores get fewer programs
+        let programs_per_store = if cfg.versioning { programs_per_store.min(4_000) } else { programs_per_store };
         let dir = root.join(format!("s{}", si));
         let _ = std::fs::remove_dir_all(&dir);
         let rt = tokio::runtime::Builder::new_current_thread().enable_all().build().unwrap();
@@ -535,6 +538,9 @@ pub fn run(a: &Args) -> i32 {
                 let mut todo: Vec<(Mode, Vec<Op>, bool)> = vec![];
                 if si < 4 {
                     let alpha = small_alphabet();
+                    // versioned stores keep every version: one length less there, or the
+                    // 100 000 programs of length 5 make every later read crawl
+                    let exhaustive_len = if cfg.versioning { exhaustive_len.min(4) } else { exhaustive_len };
                     let mut idx = vec![0usize; exhaustive_len];
                     'e: loop {
                         let mut p: Vec<Op> = idx.iter().map(|i| alpha[*i].clone()).collect();
